@@ -21,107 +21,8 @@ from .natives import rd, wr, register
 SCALAR_BITS = 640
 
 
-class Curve(object):
-    def __init__(self, fam, name, p, nbytes, **kw):
-        self.fam, self.name, self.p, self.nbytes = fam, name, p, nbytes
-        self.__dict__.update(kw)
-
-
-ED25519 = Curve('ed', 'ed25519', 2 ** 255 - 19, 32, a=-1,
-                d=37095705934669439343138083508754565189542113879843219016388785533085940283555)
-ED448 = Curve('ed', 'ed448', 2 ** 448 - 2 ** 224 - 1, 56, a=1, d=-39081)
-X25519 = Curve('mont', 'curve25519', 2 ** 255 - 19, 32, a24=121665, bits=255)
-X448 = Curve('mont', 'curve448', 2 ** 448 - 2 ** 224 - 1, 56, a24=39081, bits=448)
-
-
-# --------------------------------------------------------------------------------------------
-# concrete arithmetic (definitions)
-
-def _inv(a, p):
-    return pow(a, p - 2, p)
-
-
-def ws_on_curve(c, x, y):
-    if (x, y) == (0, 0):
-        return True
-    if not (0 <= x < c.p and 0 <= y < c.p):
-        return False
-    return (y * y - (x * x * x - 3 * x + c.b)) % c.p == 0
-
-
-def ws_add(c, P, Q):
-    if P == (0, 0):
-        return Q
-    if Q == (0, 0):
-        return P
-    p = c.p
-    if P[0] == Q[0]:
-        if (P[1] + Q[1]) % p == 0:
-            return (0, 0)
-        lam = (3 * P[0] * P[0] - 3) * _inv(2 * P[1], p) % p
-    else:
-        lam = (Q[1] - P[1]) * _inv(Q[0] - P[0], p) % p
-    x = (lam * lam - P[0] - Q[0]) % p
-    return (x, (lam * (P[0] - x) - P[1]) % p)
-
-
-def ed_on_curve(c, x, y):
-    if not (0 <= x < c.p and 0 <= y < c.p):
-        return False
-    return (c.a * x * x + y * y - 1 - c.d * x * x * y * y) % c.p == 0
-
-
-def ed_add(c, P, Q):
-    p = c.p
-    x1, y1 = P
-    x2, y2 = Q
-    t = c.d * x1 * x2 * y1 * y2 % p
-    x = (x1 * y2 + x2 * y1) * _inv(1 + t, p) % p
-    y = (y1 * y2 - c.a * x1 * x2) * _inv(1 - t, p) % p
-    return (x, y)
-
-
-def generic_smul(add, zero, k, P):
-    R = zero
-    Q = P
-    while k:
-        if k & 1:
-            R = add(R, Q)
-        Q = add(Q, Q)
-        k >>= 1
-    return R
-
-
-def mont_ladder(c, k, u):
-    """RFC 7748 s5 ladder on the raw scalar k (no clamping here); -> u coordinate or None (infinity)"""
-    p = c.p
-    x1 = u % p
-    x2, z2, x3, z3 = 1, 0, x1, 1
-    swap = 0
-    for t in range(max(k.bit_length(), 1) - 1, -1, -1):
-        kt = (k >> t) & 1
-        swap ^= kt
-        if swap:
-            x2, x3, z2, z3 = x3, x2, z3, z2
-        swap = kt
-        A = (x2 + z2) % p
-        AA = A * A % p
-        B = (x2 - z2) % p
-        BB = B * B % p
-        E = (AA - BB) % p
-        C = (x3 + z3) % p
-        D = (x3 - z3) % p
-        DA = D * A % p
-        CB = C * B % p
-        x3 = (DA + CB) ** 2 % p
-        z3 = x1 * (DA - CB) ** 2 % p
-        x2 = AA * BB % p
-        z2 = E * (AA + c.a24 * E) % p
-    if swap:
-        x2, x3, z2, z3 = x3, x2, z3, z2
-    if z2 == 0:
-        return None
-    return x2 * _inv(z2, p) % p
+from vlib.models.ecref import (Curve, ED25519, ED448, X25519, X448, _inv, ws_on_curve, ws_add, ed_on_curve, ed_add,
+                               generic_smul, mont_ladder)
 
 
 # --------------------------------------------------------------------------------------------
@@ -305,15 +206,35 @@ class _TwoCoordLib(object):
             return ERR_VALUE
         x = core.int_from_bytes(rd(xb, n), 'big')
         y = core.int_from_bytes(rd(yb, n), 'big')
+        # src/ed25519.c: ed25519_new_point() converts its input to 25.5-bit limbs and works modulo p with NO
+        # range check (non-reduced coordinates denote the reduced point); ec_ws.c / ed448.c go through
+        # mont_new_from_bytes(), which refuses values >= p
+        reduces = c.name == 'ed25519'
         if isinstance(x, int) and isinstance(y, int):
+            if reduces:
+                x, y = x % c.p, y % c.p
+            elif x >= c.p or y >= c.p:
+                return ERR_VALUE
             if not self._on(c, x, y):
                 return ERR_EC_POINT
             out.set(Pt(c, x, y))
             return 0
         natives.stub_uses.add("ONCURVE_" + c.name)
-        xe, ye = _cbv(x, 8 * n), _cbv(y, 8 * n)
-        # coordinates must be reduced and satisfy the (uninterpreted) curve predicate
-        ok = core.sym_and(x < c.p, y < c.p, SymBool.make(_ufs(c)['on'](xe, ye)))
+        if reduces:
+            def red(v):
+                if isinstance(v, int):
+                    return v % c.p
+                w = 8 * n + 1
+                e = _cbv(v, w)
+                pv = z3.BitVecVal(c.p, w)
+                e = z3.If(z3.UGE(e, pv), e - pv, e)
+                return SymInt.make(z3.If(z3.UGE(e, pv), e - pv, e), w, nn=True)
+            x, y = red(x), red(y)
+            ok = SymBool.make(_ufs(c)['on'](_cbv(x, 8 * n), _cbv(y, 8 * n)))
+        else:
+            xe, ye = _cbv(x, 8 * n), _cbv(y, 8 * n)
+            # coordinates must be reduced and satisfy the (uninterpreted) curve predicate
+            ok = core.sym_and(x < c.p, y < c.p, SymBool.make(_ufs(c)['on'](xe, ye)))
         if not ok:
             return ERR_EC_POINT
         out.set(Pt(c, x, y, smul=_recover_smul(c, x)))
@@ -360,12 +281,21 @@ class _TwoCoordLib(object):
                 e = _cbv(x, 8 * c.nbytes + 1)
                 pt.x = SymInt.make(z3.If(e == 0, e, z3.BitVecVal(c.p, 8 * c.nbytes + 1) - e), 8 * c.nbytes + 1, nn=True)
         pt.smul = None
+        if pt.sym():
+            # the negative of a curve point is a curve point
+            _on_curve_fact(c, _cbv(pt.x, 8 * c.nbytes), _cbv(pt.y, 8 * c.nbytes))
         return 0
 
     def add(self, a, b):
         c = a.curve
         if c is not b.curve:
             return ERR_EC_CURVE
+        zero = self._zero(c)
+        if not b.sym() and (b.x, b.y) == zero:
+            return 0                                # P + O = P
+        if not a.sym() and (a.x, a.y) == zero:
+            a.assign(b.clone())                     # O + P = P
+            return 0
         if a.sym() or b.sym():
             a.assign(sym_add(c, a, b))
         else:
@@ -382,6 +312,11 @@ class _TwoCoordLib(object):
         if isinstance(k, int) and not pt.sym():
             x, y = generic_smul(self._add(c), self._zero(c), k, (pt.x, pt.y))
             pt.x, pt.y, pt.smul = x, y, None
+        elif isinstance(k, int) and k == 0:
+            pt.x, pt.y = self._zero(c)
+            pt.smul = None
+        elif isinstance(k, int) and k == 1:
+            pass
         else:
             pt.assign(sym_smul(c, k, pt))
         return 0
@@ -475,10 +410,11 @@ def _mont_lib(prefix, curve, with_context):
             if isinstance(x, int):
                 x %= curve.p
             elif pt.smul is None:
-                # caller-supplied symbolic coordinate: the field element is x mod p (x < 2^bits < 2p)
+                # caller-supplied symbolic coordinate: the field element is x mod p (x < 2^bits < 3p)
                 w = 8 * curve.nbytes + 1
                 e = _cbv(x, w)
                 pv = z3.BitVecVal(curve.p, w)
+                e = z3.If(z3.UGE(e, pv), e - pv, e)
                 x = SymInt.make(z3.If(z3.UGE(e, pv), e - pv, e), w, nn=True)
             _write_coord(xb, x, n)
             return 0
@@ -497,6 +433,11 @@ def _mont_lib(prefix, curve, with_context):
             else:
                 if pt.inf is True:
                     return 0
+                if isinstance(k, int) and k == 0:
+                    pt.x, pt.inf, pt.smul = None, True, None
+                    return 0
+                if isinstance(k, int) and k == 1 and not isinstance(pt.inf, SymBool):
+                    return 0        # (for the points the harnesses build: x-coordinates of clamped-scalar multiples)
                 pt.assign(sym_smul(curve, k, pt))
             return 0
 
